@@ -38,6 +38,29 @@ CHECKS.update({
     "C02": bounded("get_line_number(off, s) == 1 + #LF before off: EXHAUSTIVE over all texts of <= 7 characters over {a, LF, CR, e-acute} x all admissible offsets (109,227 cases) + seeded long texts; analyze_for_* line sets == lines of the detector's location starts over programs x 15 layouts x 30 detectors. Which node's location each detector reports is part of the Verus contracts of C05-C07 (loc_P).", "the regex crate (external iterator types) or by-value iteration over HashSet", "§9 C02"),
     "C17": bounded("Relational check over token-preserving re-layouts (one token per line as reference, CRLF, random white space, code-like comments, multi-byte comments, string contents neutralised): the same tokens start flagged constructs, for 30 detectors. Deductive half: every spec predicate pat_P of the Verus units is Loc-blind.", "the lexer/parser (an unverified dependency)", "§9 C17"),
     "C15": bounded("Each (file, pattern) evaluated alone, repeated, with different file numbers, after the 29 other patterns in seeded permuted orders, from 8 concurrently running threads and in a fresh process; results compared. Thread interleavings are sampled by the OS scheduler, not explored. Deductive half: every function with a proved functional postcondition (Verus units) is a function of its arguments only; frame scan for statics/thread_locals/interior mutability.", "threads (neither Verus without its permission types nor Kani) or process state", "§9 C15"),
+    "C05": dict(level="other",
+        text="Mixed, itemised in the evidence: 10 of the 11 detectors (address_balance, address_zero, bool_equals_bool, assign_update_array_value, cache_array_length, multiple_require, optimal_comparison, shift_math, solidity_keccak256, solidity_math) are PROVED with Verus to report exactly hits(pat_P, loc_P) over the complete node enumeration of C01, with lemmas canon_P => pat_P => match_P tying pat_P to DESIGN §8; increment_decrement and the decimal-string arithmetic inside shift_math's helper are decided only by the bounded native check (every payload class in every syntactic position), which also serves as counterexample engine for the proved ones.",
+        design="§4.2, §8 C05, §9 C05-C07",
+        note="Trusted: Verus/Z3, vstd, walker contract (proved, C01), assumed std string contracts, R5 desugaring of `for`+`continue` (multiple_require). Bounded part is bounded.",
+        technique="contract-based deductive verification (Verus) of the real detector functions against hits/pat/loc specs; bounded executable-contract check for the functions outside Verus' reach"),
+    "C07": dict(level="other",
+        text="Mixed: unsafe_erc20_operation, floating_pragma and divide_before_multiply (both left-spine loops, with termination) are PROVED with Verus to report exactly their §8 pattern; unprotected_selfdestruct is decided by the bounded native check only (58 guard/visibility/modifier forms x containers x nestings), which also gives counterexamples for the proved ones.",
+        design="§8 C07, §9 C05-C07",
+        note="Trusted as for C05; str::contains('^') is an uninterpreted predicate of the pragma text (assumed std contract).",
+        technique="contract-based deductive verification (Verus) of three of the four real detector functions; bounded executable-contract check for unprotected_selfdestruct"),
+    "C06": bounded("Executable contracts (must/may sets per DESIGN §8, computed over the generated complete node enumeration) of the five declaration-level detectors on a declaration matrix (13 types x visibilities x constant/immutable x underscore, in contract/abstract/library/interface; function visibility x mutability x underscore x body; 26 constructor-order templates incl. cross-contract, 3..300 functions) + seeded random member orders.", "these five functions YET (Verus unit det_decl is work in progress: for-with-continue needs the R5 desugaring, Vec::clone of attributes)", "§8 C06"),
+    "C08": bounded("Executable never/always contracts of constant_variables, immutable_variables, memory_to_calldata, sstore: 40 write positions (incl. catch bodies, modifier and base-constructor arguments, exponents) x 15 write forms x targets, multi-write files, parameter-write forms x function kinds.", "by-value iteration over HashMap and labelled continue in get_32_byte_storage_variables without a trusted iterator model (second wave, DESIGN §9 C08)", "§8 C08, §9 C08"),
+    "C09": bounded("The real version extractor and the four version-gated detectors on every version triple 0.0.0..1.2.40 (thorough: x 6 operator spellings x 4 placements of unrelated pragmas x 3 bodies, exhaustive over that stated domain; quick: all triples with the plain spelling + boundary versions x operators x placements), never-both, monotonicity, 31/32/33-byte strings.", "the regex crate and iterator adapters in the version extractor (gates: Verus unit det_gate is work in progress)", "§8 C09, §9 C09"),
+    "C04": dict(level="other",
+        text="Mixed: panic-freedom (every unwrap/expect/index/arithmetic site, loop termination where a decreases clause is given) is a Verus obligation for every function under contract in units ast, slots and det_expr (walker, tables, accessors, 14 detectors and their helpers), for all inputs; all 30 detectors are additionally run under catch_unwind on the totality corpus (no pragma, unreadable versions, free functions, literals to 2^300 with separators/exponents, zero-argument calls, 300 definitions, depth 60) in a build with and a build without overflow checks (bounded).",
+        design="§9 C04",
+        note="Trusted as for C01/C05/C10; stack exhaustion on deep nesting is not modelled (property bounds nesting at 64). Parser invariants (non-empty string-literal vectors, type sizes) enter as requires-clauses.",
+        technique="contract-based deductive verification (Verus: callee preconditions, overflow, bounds) for the functions under contract; bounded totality run for the rest"),
+    "C19": dict(level="other",
+        text="Mixed: for every detector proved in hits-form (unit det_expr) composition over top-level items follows from the proved lemma lemma_hits_concat (hits distributes over concatenation) together with all_nodes(file) = [file] + concatenation of all_nodes(item) (generated spec); all 28 non-SafeMath detectors are additionally checked whole-file vs. all-but-one-item-blanked on ordered pairs of 17 item kinds and seeded triples/quadruples (bounded).",
+        design="§9 C19",
+        note="Trusted as for C05. The bounded part is bounded.",
+        technique="Verus lemma over the proved detector contracts + bounded relational check on the real code"),
     "C18": bounded("Frame contract of a run of the real binary ('modifies exactly ./solstat_report.md, by replacement') checked by recursive before/after snapshots over trees x working directories x previous-report states, two runs in a row.", "the file system or process effects", "§9 C18"),
 })
 
